@@ -826,13 +826,13 @@ theorem runServers_spec (c : Cfg) (ls : List LSpec) (k : K) (hB : Below k.led k.
 
 /-! ## run_io -/
 
-theorem registerSignals_spec (k : K) (ht : k.led.term = .dfl) :
-    (registerSignals k).2.next = k.next ∧ (registerSignals k).2.goAhead = k.goAhead ∧
-    if (registerSignals k).1 = true then
-      (registerSignals k).2.led = { k.led with term := .handler, int := .handler, pipe := .ign }
-    else (registerSignals k).2.led = k.led ∨
-      ((registerSignals k).2.led = { k.led with term := .handler, int := .handler } ∧
-        Ev.signal .pipe .ign false ∈ (registerSignals k).2.tr) := by
+theorem registerSignals_spec (restore : Bool) (k : K) (ht : k.led.term = .dfl) (hi : k.led.int = .dfl) :
+    (registerSignals restore k).2.next = k.next ∧ (registerSignals restore k).2.goAhead = k.goAhead ∧
+    if (registerSignals restore k).1 = true then
+      (registerSignals restore k).2.led = { k.led with term := .handler, int := .handler, pipe := .ign }
+    else (registerSignals restore k).2.led = k.led ∨
+      (restore = false ∧ (registerSignals restore k).2.led = { k.led with term := .handler, int := .handler } ∧
+        Ev.signal .pipe .ign false ∈ (registerSignals restore k).2.tr) := by
   unfold registerSignals
   obtain ⟨b1, k1, e1, hl1, hn1, hg1⟩ := sys_eq k (.signal .term .handler)
   rw [e1]; dsimp only
@@ -853,8 +853,17 @@ theorem registerSignals_spec (k : K) (ht : k.led.term = .dfl) :
       rw [e3'] at e3 ⊢; dsimp only at e3 ⊢
       cases b3
       · simp only [if_true, Bool.false_eq_true, if_false]
-        refine ⟨by rw [hn3, hn2, hn1], by rw [hg3, hg2, hg1], Or.inr ⟨?_, by rw [e3]; simp⟩⟩
-        rw [hl3, hl2, hl1]; simp [step, Led.setSig]
+        cases restore
+        · simp only [Bool.false_eq_true, if_false]
+          refine ⟨by rw [hn3, hn2, hn1], by rw [hg3, hg2, hg1], Or.inr ⟨trivial, ?_, by rw [e3]; simp⟩⟩
+          rw [hl3, hl2, hl1]; simp [step, Led.setSig]
+        · simp only [if_true, emit_next, emit_goAhead, emit_led]
+          refine ⟨by rw [hn3, hn2, hn1], by rw [hg3, hg2, hg1], Or.inl ?_⟩
+          rw [hl3, hl2, hl1]
+          simp only [step, Led.setSig, if_true, Bool.false_eq_true, if_false]
+          generalize k.led = L at ht hi ⊢
+          cases L
+          simp_all
       · simp only [Bool.true_eq_false, if_false, if_true]
         refine ⟨by rw [hn3, hn2, hn1], by rw [hg3, hg2, hg1], ?_⟩
         rw [hl3, hl2, hl1]; simp [step, Led.setSig]
@@ -867,17 +876,18 @@ theorem runIo_spec (c : Cfg) (k : K) (hl : k.led = {}) :
     match (runIo c k).1 with
     | .signalFailed => (runIo c k).2.goAhead = k.goAhead ∧
         ((runIo c k).2.led = {} ∨
-          ((runIo c k).2.led = { term := .handler, int := .handler } ∧ Ev.signal .pipe .ign false ∈ (runIo c k).2.tr))
+          (c.code.restoreOnPipeFail = false ∧ (runIo c k).2.led = { term := .handler, int := .handler } ∧
+            Ev.signal .pipe .ign false ∈ (runIo c k).2.tr))
     | .initFailed => (runIo c k).2.goAhead = false ∧ (runIo c k).2.led = finalLed [] 0
     | .servers (.startFailed m) => (runIo c k).2.goAhead = k.goAhead ∧ m < (listeners c).length ∧
-        ∃ ps, (runIo c k).2.led = finalLed ps (udsIn ((listeners c).take m))
+        ∃ ps, (runIo c k).2.led = finalLed ps (udsIn ((listeners c).take m)) ∧ (c.code.destroyAtEnd = true → ps = [])
     | .servers (.jet (.ran _)) => (runIo c k).2.goAhead = k.goAhead ∧
         (runIo c k).2.led = finalLed [] (udsIn (listeners c))
     | .servers (.jet _) => (runIo c k).2.goAhead = k.goAhead ∧
-        ∃ ps, (runIo c k).2.led = finalLed ps (udsIn (listeners c)) := by
+        ∃ ps, (runIo c k).2.led = finalLed ps (udsIn (listeners c)) ∧ (c.code.destroyAtEnd = true → ps = []) := by
   unfold runIo
-  have hs := registerSignals_spec k (by rw [hl])
-  generalize registerSignals k = r at hs
+  have hs := registerSignals_spec c.code.restoreOnPipeFail k (by rw [hl]) (by rw [hl])
+  generalize registerSignals c.code.restoreOnPipeFail k = r at hs
   obtain ⟨bs, ks⟩ := r
   dsimp only at hs ⊢
   obtain ⟨hn, hg, hs⟩ := hs
@@ -906,17 +916,25 @@ theorem runIo_spec (c : Cfg) (k : K) (hl : k.led = {}) :
       obtain ⟨e, kr⟩ := rr
       dsimp only at hr ⊢
       obtain ⟨_, hgr, hr⟩ := hr
-      have hgo : kr.goAhead = k.goAhead := by rw [hgr, hgi, hg]
+      have hgo : (finish c kr).goAhead = k.goAhead := by
+        have : (finish c kr).goAhead = kr.goAhead := by unfold finish; split <;> rfl
+        rw [this, hgr, hgi, hg]
       have fin : ∀ (ps : List (Nat × Kind)) (u : Nat), kr.led = (ki.led.unl u).setPeers ps →
-          (unregisterSignals (kr.emit .destroy)).led = finalLed ps u := by
+          (finish c kr).led = finalLed (if c.code.destroyAtEnd then [] else ps) u := by
         intro ps u h
-        simp only [unregisterSignals, emit_led]
-        rw [h, hli]; simp [step, Led.setSig, finalLed, Led.unl, Led.setPeers]
+        have fk := filter_kinds ps
+        simp only [ne_eq, decide_not] at fk
+        unfold finish
+        split
+        · simp only [unregisterSignals, emit_led]
+          rw [h, hli]; simp [step, Led.setSig, finalLed, Led.unl, Led.setPeers, fk]
+        · simp only [unregisterSignals, emit_led]
+          rw [h, hli]; simp [step, Led.setSig, finalLed, Led.unl, Led.setPeers]
       have hp0 : ki.led.peers = [] := by rw [hli]; simp [step]
       have fin' : ∀ (u : Nat) (n0 n1 : Nat), PeersAdded (ki.led.unl u) n0 n1 kr.led →
-          ∃ ps, (unregisterSignals (kr.emit .destroy)).led = finalLed ps u := by
+          ∃ ps, (finish c kr).led = finalLed ps u ∧ (c.code.destroyAtEnd = true → ps = []) := by
         intro u n0 n1 ⟨ps, h, _⟩
-        refine ⟨ps, fin ps u ?_⟩
+        refine ⟨_, fin ps u ?_, fun hd => by simp [hd]⟩
         rw [h]; simp [Led.addPeers, Led.setPeers, Led.unl, hp0]
       cases e with
       | startFailed m =>
@@ -924,7 +942,10 @@ theorem runIo_spec (c : Cfg) (k : K) (hl : k.led = {}) :
         exact ⟨hgo, hr.1, fin' _ _ _ hr.2⟩
       | jet j =>
         cases j with
-        | ran b => dsimp only at hr ⊢; exact ⟨hgo, fin [] _ hr⟩
+        | ran b =>
+          dsimp only at hr ⊢
+          refine ⟨hgo, ?_⟩
+          rw [fin [] _ hr]; simp
         | privFailed => dsimp only at hr ⊢; exact ⟨hgo, fin' _ _ _ hr⟩
         | daemonFailed => dsimp only at hr ⊢; exact ⟨hgo, fin' _ _ _ hr⟩
 
@@ -1032,8 +1053,8 @@ theorem bootPhase_spec (c : Cfg) (k : K) (hl : k.led = {}) (acc : List (LSpec ×
     ∃ m, m ≤ (listeners c).length ∧ acc.map (·.1) = ((listeners c).take m).reverse ∧
       (okk = true ↔ m = (listeners c).length) := by
   unfold bootPhase at hb
-  have hs := registerSignals_spec k (by rw [hl])
-  generalize registerSignals k = r at hs hb
+  have hs := registerSignals_spec c.code.restoreOnPipeFail k (by rw [hl]) (by rw [hl])
+  generalize registerSignals c.code.restoreOnPipeFail k = r at hs hb
   obtain ⟨bs, ks⟩ := r
   dsimp only at hs hb
   obtain ⟨hn, hg, hs⟩ := hs
@@ -1077,8 +1098,8 @@ theorem runIo_of_boot_none (c : Cfg) (k : K) (hb : bootPhase c k = none) :
 theorem runIo_of_boot_some (c : Cfg) (k : K) (acc : List (LSpec × Nat)) (okk : Bool) (k1 : K)
     (hb : bootPhase c k = some (acc, okk, k1)) :
     runIo c k =
-      if okk then (.servers (.jet (runJet c k1).1), unregisterSignals ((stopAll acc (runJet c k1).2).emit .destroy))
-      else (.servers (.startFailed acc.length), unregisterSignals ((stopAll acc k1).emit .destroy)) := by
+      if okk then (.servers (.jet (runJet c k1).1), finish c (stopAll acc (runJet c k1).2))
+      else (.servers (.startFailed acc.length), finish c (stopAll acc k1)) := by
   unfold bootPhase at hb
   unfold runIo runServers
   dsimp only
@@ -1218,9 +1239,9 @@ theorem ups_rest (L : Led) : ∀ acc, (L.ups acc).term = L.term ∧ (L.ups acc).
 
 /-- signal dispositions at return: restored, or — the one path where the code does not restore them —
     `signal(SIGPIPE, SIG_IGN)` failed after both handlers were installed (linux_io.c:547-550) -/
-def SignalsAsCoded (e : IoEnd) (tr : List Ev) (L : Led) : Prop :=
+def SignalsAsCoded (restore : Bool) (e : IoEnd) (tr : List Ev) (L : Led) : Prop :=
   (L.term = .dfl ∧ L.int = .dfl) ∨
-  (e = .signalFailed ∧ Ev.signal .pipe .ign false ∈ tr ∧ L.term = .handler ∧ L.int = .handler)
+  (restore = false ∧ e = .signalFailed ∧ Ev.signal .pipe .ign false ∈ tr ∧ L.term = .handler ∧ L.int = .handler)
 
 /-- everything that belongs to listeners is released and the monitor saw no violation -/
 def ListenersReleased (L : Led) : Prop :=
